@@ -58,7 +58,7 @@ ASSUMPTIONS = [
 OPEN_STATEMENTS = [
     "thaw_window_closed_Full (Props/C07.lean): no stored instance keeps the initialisation marker after a successful "
     "operation -- proved for deepcopy (thaw_window_closed_partial); false on heaps with dangling references (witness "
-    "dangling_ref_leaves_thawed_copy), hence stated for closed heaps; the marker is part of the canonical world compared "
+    "dangling_ref_copies_half_initialised), hence stated for closed heaps; the marker is part of the canonical world compared "
     "on every run and the oracle checks it on every instance",
     "cow_never_frozen_error_resetAttr_Full: reset_<a>() on a frozen receiver never fails with FrozenInstanceError "
     "(follows from frozen_cow_equals_twin plus 'the unfrozen table never raises FrozenInstanceError'; not assembled)",
@@ -354,12 +354,65 @@ def extra(tier, rng):
                 if problem:
                     violations.append({"case": case, "violation": [f"{cname}.{label} (caches {'filled' if warm else 'empty'}): {problem}"]})
                 keys.append((cname, warm, label))
+    # ---- copies derived while the receiver's own initialisation window is open (fixed finding d5f18b0):
+    # a helper called from __post_init__ of a frozen class must hand out a finished, frozen copy
+    n_inv = evaluations
+    from typing import List
+
+    from spec_classes import spec_class
+
+    for label, derive in (
+        ("with_x", lambda o: o.with_x(5)),
+        ("update", lambda o: o.update(x=5)),
+        ("transform_x", lambda o: o.transform_x(lambda v: v + 1)),
+        ("reset_x", lambda o: o.reset_x()),
+        ("with_n", lambda o: o.with_n(3)),
+        ("deepcopy", lambda o: copy.deepcopy(o)),
+        ("with_x.with_x", lambda o: o.with_x(5).with_x(6)),
+    ):
+        leaked = []
+
+        @spec_class(frozen=True, bootstrap=True)
+        class FPI:
+            x: int = 1
+            ns: List[int] = []
+
+            def __post_init__(self, derive=derive, leaked=leaked):
+                leaked.append(derive(self))
+
+        evaluations += 1
+        keys.append(("post_init", label))
+        case = {"extra": "post_init", "call": label}
+        try:
+            inst = FPI()
+        except Exception as e:  # noqa: BLE001
+            violations.append({"case": case, "violation": [f"{label} inside __post_init__ of a frozen class raised {H.exc_name(e)}"]})
+            continue
+        for what, o in (("the copy derived inside __post_init__", leaked[0]), ("the constructed instance", inst)):
+            problem = None
+            if "__spec_class_initializing__" in o.__dict__:
+                problem = "still carries the initialisation marker"
+            else:
+                for probe_label, probe in (("assignment", lambda o=o: setattr(o, "x", 9)), ("del", lambda o=o: delattr(o, "x")), ("in-place helper", lambda o=o: o.with_n(7, _inplace=True))):
+                    before = H.deep_snapshot(o)
+                    try:
+                        probe()
+                        problem = f"{probe_label} succeeded on a frozen instance"
+                    except Exception as e:  # noqa: BLE001
+                        if H.exc_name(e) != "FrozenInstanceError":
+                            problem = f"{probe_label} raised {H.exc_name(e)}"
+                    if problem is None and H.deep_snapshot(o) != before:
+                        problem = f"{probe_label} raised but changed the frozen instance"
+                    if problem:
+                        break
+            if problem:
+                violations.append({"case": case, "violation": [f"{label} in __post_init__: {what} {problem}"]})
     return {
         "evaluations": evaluations,
         "nontrivial": keys,
         "violations": violations,
         "disagreements": [],
-        "info": {"invalidated_by_twin_calls": evaluations},
+        "info": {"invalidated_by_twin_calls": n_inv, "copies_derived_inside_post_init": evaluations - n_inv},
     }
 
 
